@@ -10,7 +10,7 @@ M64 = (1 << 64) - 1
 COMMUTATIVE = {"add", "mul", "xor", "or", "and"}
 BIN = {"Add": "add", "AddUnchecked": "add", "AddWithOverflow": "add", "Sub": "sub", "SubUnchecked": "sub", "SubWithOverflow": "sub",
        "Mul": "mul", "MulUnchecked": "mul", "MulWithOverflow": "mul", "BitXor": "xor", "BitOr": "or", "BitAnd": "and",
-       "Shl": "shl", "ShlUnchecked": "shl", "Shr": "shr", "ShrUnchecked": "shr"}
+       "Shl": "shl", "ShlUnchecked": "shl", "Shr": "shr", "ShrUnchecked": "shr", "Rem": "rem", "Div": "div"}
 TRAIT_OPS = {
     "core::ops::arith::Mul::mul": "mul", "core::ops::arith::Add::add": "add", "core::ops::arith::Sub::sub": "sub",
     "core::ops::bit::BitXor::bitxor": "xor", "core::ops::bit::BitOr::bitor": "or", "core::ops::bit::BitAnd::bitand": "and",
@@ -43,9 +43,10 @@ class Unsupported(Exception):
 
 
 class Evaluator:
-    def __init__(self, facts, depth=4):
+    def __init__(self, facts, depth=4, follow_try=False):
         self.facts = facts
         self.depth = depth
+        self.follow_try = follow_try     # `x?`: continue along the success edge, the payload is ("fld", ("fld", branch(x), Continue), 0)
 
     # ---- places ------------------------------------------------------------------------------
     @staticmethod
@@ -75,6 +76,9 @@ class Evaluator:
                     if rest and rest[0] == "*":
                         return self.read_key(env, body, (t[1][0], t[1][1] + rest[1:]))
                 for e in elems[n:]:
+                    if t[0] == "tuple" and e.isdigit() and int(e) + 1 < len(t):
+                        t = t[1 + int(e)]
+                        continue
                     if e == "0" and self._is_wrapping(body, p, env):
                         continue
                     if e == "*":
@@ -154,6 +158,8 @@ class Evaluator:
             raise Unsupported("aggregate " + str(rv[1][:2]))
         if k == "un":
             return ("un", rv[1], self.operand(env, body, rv[2]))
+        if k == "disc" and self.follow_try:
+            return ("disc", self.read(env, body, rv[1]))
         raise Unsupported("rvalue " + k)
 
     # ---- bodies ------------------------------------------------------------------------------------
@@ -187,6 +193,13 @@ class Evaluator:
                     bb = t[5]
                 elif k in ("falseedge", "falseunwind"):
                     bb = t[1]
+                elif k == "switch" and self.follow_try:
+                    sc = self.operand(env, body, t[1])
+                    tgt = [x[1] for x in t[2] if str(x[0]) == "0"]
+                    if sc[0] == "disc" and sc[1][0] == "call" and sc[1][1] == "branch" and tgt:
+                        bb = tgt[0]
+                    else:
+                        raise Unsupported("switch")
                 elif k == "call":
                     self.call(env, body, t, depth)
                     if t[4] is None:
@@ -215,6 +228,19 @@ class Evaluator:
             self.write(env, body, t[3], ("unit",))
             return
         tgt = cal.get("res") or decl
+        if self.follow_try and decl in ("core::convert::From::from", "core::convert::Into::into") and len(args) == 1:
+            # integer conversions keep their source and target types: `u128::from(x)` and `x as u128` are the same value
+            import re as _re
+            m = _re.search(r"From<(\w+)> for (\w+)>::from$", tgt or "")
+            tys = (m.group(1), m.group(2)) if m else None
+            if tys is None:
+                ga = [x.strip() for x in (cal.get("args") or "").strip("[]").split(",")]
+                if len(ga) == 2:
+                    tys = (ga[1], ga[0]) if decl.endswith("From::from") else (ga[0], ga[1])
+            ints = ("u8", "u16", "u32", "u64", "u128", "usize", "i8", "i16", "i32", "i64", "i128", "isize")
+            if tys and tys[0] in ints and tys[1] in ints:
+                self.write(env, body, t[3], ("cast", tys[0], tys[1], args[0]) if args[0][0] != "c" else args[0])
+                return
         cb = self.facts.body(tgt) if tgt else None
         if cb is not None and depth < self.depth and not cb.is_coroutine:
             cargs = args
